@@ -559,13 +559,25 @@ theorem best_meets_targets (tg : Targets) (cache : Cache) (k : List Ix) (c : Cos
   · intro s hs; rw [hs] at hv; simpa using hv.2
   · intro p q hs; rw [hs] at hv; simpa [Costs.overheadLe] using hv.1.2
 
-/-- the conclusion of `search_sound` for a result of `best` on *any* cache satisfying the cache
-    invariant (shared by `search_sound` and `session_sound`) -/
-theorem best_on_inv_sound (n : Net) (rm sliced : List Ix) (t : BT) (order : List BT) (hyp : TreeHyp n t)
+/-- what "valid for the targets" means for a cache entry (the filter of `best`) -/
+theorem valid_spec (tg : Targets) (c : Costs) (hv : valid tg c = true) :
+    (∀ s, tg.size = some s → sizeLe c s = true) ∧
+    (∀ s, tg.slices = some s → s ≤ c.nslices) ∧
+    (∀ p q, tg.overhead = some (p, q) → c.totalFlops * q ≤ p * c.originalFlops) := by
+  unfold valid at hv
+  simp only [Bool.and_eq_true] at hv
+  refine ⟨?_, ?_, ?_⟩
+  · intro s hs; rw [hs] at hv; exact hv.1.1
+  · intro s hs; rw [hs] at hv; simpa using hv.2
+  · intro p q hs; rw [hs] at hv; simpa [Costs.overheadLe] using hv.1.2
+
+/-- the conclusion of `search_sound` for *any* entry of a cache satisfying the cache invariant
+    that passes the filter of `best` (shared by `search_sound`, `session_sound`, `bestK_sound`) -/
+theorem valid_entry_sound (n : Net) (rm sliced : List Ix) (t : BT) (order : List BT) (hyp : TreeHyp n t)
     (hperm : order.Perm t.internal) (hnode : t.internal ≠ []) (c0 : Costs)
     (hinit : Costs.init (order.map (conOf n rm t)) n.sizes = some c0)
     (forb : List Ix) (tg : Targets) (cache : Cache) (hinv : CacheInv forb c0 cache)
-    (k : List Ix) (c : Costs) (h : best tg cache = some (k, c)) :
+    (k : List Ix) (c : Costs) (hmem : (k, c) ∈ cache) (hv : valid tg c = true) :
     ∃ ixs, keyOf ixs = k ∧ (∀ x ∈ ixs, x ∉ forb) ∧
       let st := n.stats (ixs.reverse ++ rm) (ixs.reverse ++ sliced) t
       let st0 := n.stats rm sliced t
@@ -575,7 +587,7 @@ theorem best_on_inv_sound (n : Net) (rm sliced : List Ix) (t : BT) (order : List
       (∀ s, tg.size = some s → st.size ≤ s) ∧
       (∀ s, tg.slices = some s → s * n.mult sliced ≤ n.mult (ixs.reverse ++ sliced)) ∧
       (∀ p q, tg.overhead = some (p, q) → st.flops * q ≤ p * st0.flops) := by
-  obtain ⟨hmem, hsz, hsl, hov⟩ := best_meets_targets tg _ k c h
+  obtain ⟨hsz, hsl, hov⟩ := valid_spec tg c hv
   obtain ⟨ixs, hk, hreach, hforb⟩ := hinv (k, c) hmem
   obtain ⟨e1, e2, e3⟩ := costs_eq_sliced_tree_stats n rm sliced t order hyp hperm c0 hinit ixs c hreach hnode
   obtain ⟨_, _, _, e4⟩ := costs_remove_eq_tree n rm t order hyp hperm c0 hinit ixs c hreach
@@ -604,6 +616,82 @@ theorem best_on_inv_sound (n : Net) (rm sliced : List Ix) (t : BT) (order : List
         _ ≤ ((n.mult sliced : Nat) : Int) * (p * c.originalFlops) := h2
         _ = p * (((n.mult sliced : Nat) : Int) * c.originalFlops) := by ring
     exact_mod_cast this
+
+theorem best_valid (tg : Targets) (cache : Cache) (k : List Ix) (c : Costs)
+    (h : best tg cache = some (k, c)) : (k, c) ∈ cache ∧ valid tg c = true := by
+  have hm := minBy_mem _ _ _ h
+  rw [List.mem_filter] at hm
+  exact hm
+
+theorem best_on_inv_sound (n : Net) (rm sliced : List Ix) (t : BT) (order : List BT) (hyp : TreeHyp n t)
+    (hperm : order.Perm t.internal) (hnode : t.internal ≠ []) (c0 : Costs)
+    (hinit : Costs.init (order.map (conOf n rm t)) n.sizes = some c0)
+    (forb : List Ix) (tg : Targets) (cache : Cache) (hinv : CacheInv forb c0 cache)
+    (k : List Ix) (c : Costs) (h : best tg cache = some (k, c)) :
+    ∃ ixs, keyOf ixs = k ∧ (∀ x ∈ ixs, x ∉ forb) ∧
+      let st := n.stats (ixs.reverse ++ rm) (ixs.reverse ++ sliced) t
+      let st0 := n.stats rm sliced t
+      ((n.mult sliced : Nat) : Int) * c.totalFlops = (st.flops : Int) ∧
+      c.size = some st.size ∧
+      n.mult (ixs.reverse ++ sliced) = n.mult sliced * c.nslices ∧
+      (∀ s, tg.size = some s → st.size ≤ s) ∧
+      (∀ s, tg.slices = some s → s * n.mult sliced ≤ n.mult (ixs.reverse ++ sliced)) ∧
+      (∀ p q, tg.overhead = some (p, q) → st.flops * q ≤ p * st0.flops) :=
+  valid_entry_sound n rm sliced t order hyp hperm hnode c0 hinit forb tg cache hinv k c
+    (best_valid tg cache k c h).1 (best_valid tg cache k c h).2
+
+theorem mem_insertByScore (f : Costs → Int × Int × Int) (x y : List Ix × Costs)
+    (l : List (List Ix × Costs)) : y ∈ insertByScore f x l ↔ (y = x ∨ y ∈ l) := by
+  induction l with
+  | nil => simp [insertByScore]
+  | cons z t ih =>
+    unfold insertByScore
+    split
+    · simp only [List.mem_cons, ih]
+      constructor
+      · rintro (h | h | h)
+        · exact Or.inr (Or.inl h)
+        · exact Or.inl h
+        · exact Or.inr (Or.inr h)
+      · rintro (h | h | h)
+        · exact Or.inr (Or.inl h)
+        · exact Or.inl h
+        · exact Or.inr (Or.inr h)
+    · simp [List.mem_cons]
+
+theorem mem_sortByScore (f : Costs → Int × Int × Int) (y : List Ix × Costs)
+    (l : List (List Ix × Costs)) : y ∈ sortByScore f l ↔ y ∈ l := by
+  unfold sortByScore
+  induction l with
+  | nil => simp
+  | cons z t ih => simp only [List.foldr_cons, mem_insertByScore, ih, List.mem_cons]
+
+/-- **bestK_sound** — `SliceFinder.best(k=…)`, the list interface: on a finder with any history
+    (`before`), *every* slicing in the returned list — not only the first — is a removal chain
+    avoiding the forbidden set whose predicted figures are those of the tree sliced on it and on
+    which every target in force holds. -/
+theorem bestK_sound (n : Net) (rm sliced : List Ix) (t : BT) (order : List BT) (hyp : TreeHyp n t)
+    (hperm : order.Perm t.internal) (hnode : t.internal ≠ []) (c0 : Costs)
+    (hinit : Costs.init (order.map (conOf n rm t)) n.sizes = some c0)
+    (forb : List Ix) (tg0 : Targets) (before : List Call) (over : Targets) (kk : Nat)
+    (k : List Ix) (c : Costs)
+    (h : (k, c) ∈ bestK (over.orElse tg0) (sessionCache forb tg0 before [([], c0)]) kk) :
+    let tg := over.orElse tg0
+    ∃ ixs, keyOf ixs = k ∧ (∀ x ∈ ixs, x ∉ forb) ∧
+      let st := n.stats (ixs.reverse ++ rm) (ixs.reverse ++ sliced) t
+      let st0 := n.stats rm sliced t
+      ((n.mult sliced : Nat) : Int) * c.totalFlops = (st.flops : Int) ∧
+      c.size = some st.size ∧
+      n.mult (ixs.reverse ++ sliced) = n.mult sliced * c.nslices ∧
+      (∀ s, tg.size = some s → st.size ≤ s) ∧
+      (∀ s, tg.slices = some s → s * n.mult sliced ≤ n.mult (ixs.reverse ++ sliced)) ∧
+      (∀ p q, tg.overhead = some (p, q) → st.flops * q ≤ p * st0.flops) := by
+  intro tg
+  have hinv := session_cache_sound forb tg0 c0 before _ (cacheInv_init forb c0)
+  unfold bestK at h
+  have h1 := List.mem_of_mem_take h
+  rw [mem_sortByScore, List.mem_filter] at h1
+  exact valid_entry_sound n rm sliced t order hyp hperm hnode c0 hinit forb tg _ hinv k c h1.1 h1.2
 
 /-- **search_sound** (the property). Start a `SliceFinder` on the tree `t` (already removed `rm`,
     of which `sliced` multiply the slice count), run any trials with any oracle answers, call
